@@ -17,7 +17,8 @@ ASSUMPTIONS = ["the 15 s restart back-off is woven to 15 ms (a copy of the curre
                "the supportability goroutine is alive whenever the producer or the worker reports to it (it only ends on an application shutdown nobody calls); "
                "the engine would report the worker or the producer as blocked otherwise",
                "clone() of the sender never fails (a failing clone ends the worker without marking shutdown initiated; not modelled)",
-               "producer and Shutdown never run at the same instant for one queue (the processor deletes the harvest before Close runs); the machine's events are atomic"]
+               "producer and Shutdown never run at the same instant for one queue (the processor deletes the harvest before Close runs); the machine's events are atomic",
+               "ops shutbegin / shutend: Shutdown's own ticker is woven to a harness ticker for the engine's time-out value; where the worker's select has two enabled branches (queue, shutdown signal) the engine follows the implementation's choice"]
 EXPLANATION = ("Small-step machine of producer, worker and owner over the two channels and the capacity counter; capacity and ledger invariants by "
                "induction over all event interleavings, all batch sizes and all queue sizes.")
 TECHNIQUE = ("Lean 4 theorems (capacity invariant free + queued + in hands + uncredited = Q, ledger, never credit-blocked, by induction over all interleavings) "
